@@ -170,7 +170,7 @@ else:
     lk.put_string("main", TEMPLATE + "start|${%s()}|<%%call expr=\\"h_%s()\\">hb</%%call>|end" % (site, site))
     def probe(i): return "#%d#" % i
     lk2 = TemplateLookup(); lk2.put_string("foreign", "N[${probe(20)}]")
-    data = dict(probe=probe, up=lambda s: s.upper(), tf=lambda s: probe(9) + s.lower(), Boom=Boom, items=lambda m: (7,), other=lk2.get_template("foreign"))
+    data = dict(probe=probe, up=lambda s: s.upper(), tf=lambda s: probe(9) + s.lower(), Boom=Boom, items=lambda m: (7,), other=lk2.get_template("foreign"), q="Q")
     normal = SITES[site][0]
     try:
         got = "".join(lk.get_template("main").render(**data).split())
